@@ -26,7 +26,7 @@ RULE = (
 COMPONENTS = c01.COMPONENTS
 ASSUMPTIONS = c01.ASSUMPTIONS + ["inside edits are body-text changes and value changes of variables of the documented basic kinds read by name"]
 PROBES = ["outside_edit_compared", "inside_edit_compared", "depth>=4", "accept_prefix_deep", "decoys>=10", "lookalike_module",
-          "refusal_checked", "few_accepted_deep_module"]
+          "refusal_checked", "few_accepted_deep_module", "late_accept", "eval_before_accept"]
 
 
 def _feat(cfg, avoid=()):
@@ -74,6 +74,23 @@ def gen_case(streams, tier, avoid):
             op["entry"] = e
     if cfg.random() < 0.5:
         case["ops"].insert(cfg.randrange(len(case["ops"]) + 1), {"op": "exteval", "m": cfg.randrange(len(prog["extmods"]))})
+    if cfg.random() < 0.3:
+        # the package is accepted only after the process has already evaluated (or tried to evaluate) something
+        case["late_accept"] = True
+        ops = []
+        fresh = True
+        for op in case["ops"]:
+            if op["op"] == "restart":
+                fresh = True
+                ops.append(op)
+                continue
+            if fresh and op["op"] in ("eval", "exteval", "mutate", "chdir"):
+                if op["op"] == "eval" and cfg.random() < 0.7:
+                    ops.append(dict(op))         # attempt before accepting
+                ops.append({"op": "accept"})
+                fresh = False
+            ops.append(op)
+        case["ops"] = ops
     return case
 
 
@@ -105,7 +122,15 @@ def run_case(case):
         idx_of = {}
         for k, op in enumerate(case["ops"]):
             idx_of[op.get("id", k)] = k
-        evs = [o for o in w.obs if o["op"] == "eval" and not o.get("fail") and not o["opts"]]
+        for o in w.obs:
+            if o["op"] == "eval" and o.get("pre_accept"):
+                probe("eval_before_accept")
+                # code of a package that is not accepted (yet) is either refused or, for a plain entry point, run as
+                # plain python: it must never be served from the store or recorded under a path
+                if o["res"][0] == "ok" and o["res"] != o["ref"]:
+                    w.violate("C14.inside", f"op {o['i']} eval {o['entry']} before accept_module: returned {str(o['res'])[:200]} "
+                                            f"plain execution returns {str(o['ref'])[:200]}")
+        evs = [o for o in w.obs if o["op"] == "eval" and not o.get("fail") and not o["opts"] and not o.get("pre_accept")]
         for o in evs:
             key = (o["store"], o["entry"])
             if key in last and o["res"][0] == "ok" and last[key]["res"][0] == "ok" and o["sigs"] and last[key]["sigs"]:
@@ -155,6 +180,9 @@ def run_case(case):
                                                         f"{prog.get('decoys', 0)} decoys)")
             last[key] = o
         for o in evs:
+            if o["ref"][0] == "ok" and o["res"][0] == "ok" and o["res"] != o["ref"]:
+                w.violate("C14.inside", f"op {o['i']} eval {o['entry']}: accepted code returned the stale / wrong value {str(o['res'])[:200]} "
+                                        f"(plain execution: {str(o['ref'])[:200]})")
             if o["ref"][0] == "ok" and o["res"][0] != "ok":
                 w.violate("C14.inside", f"op {o['i']} eval {o['entry']}: code of the accepted package {'.'.join(prog['pkg'][:prog['accept']])} "
                                         f"(module depth {len(prog['pkg']) + 1}, {prog.get('decoys', 0)} decoys) was not evaluated: {str(o['res'])[:300]}")
